@@ -17,9 +17,10 @@ Inductive kind := KRoute | KNoRoute | KNoMethod | KRedirect | KOptions.
 (* global options of fox.New; a bool says "the function value is non-nil", an option nat is a resolver (None = nil) *)
 Inductive gopt :=
 | GRedirectTS (b : bool) | GIgnoreTS (b : bool) | GClientIP (r : option nat)
-| GMw (ms : list bool) | GMwFor (ms : list bool)
+| GMw (ms : list bool) | GMwFor (scope : N) (ms : list bool)   (* scope: any HandlerScope value 0..255 *)
 | GNoRouteH (nonnil : bool) | GNoMethodH (nonnil : bool) | GOptionsH (nonnil : bool)
-| GNoMethod (b : bool) | GAutoOptions (b : bool) | GDefault.
+| GNoMethod (b : bool) | GAutoOptions (b : bool) | GDefault
+| GMaxParams (n : N).                     (* WithMaxRouteParams(n), n a uint16 *)
 
 (* route options of Handle / Update / NewRoute *)
 Inductive ropt :=
@@ -35,7 +36,8 @@ Inductive probe :=
 | PWrongMethod      (* POST, the matching path *)
 | POptions.         (* OPTIONS, the matching path *)
 
-Inductive via := VHandle | VUpdate | VNewRoute.     (* Router.Handle / Router.Update / Router.NewRoute + HandleRoute *)
+Inductive via := VHandle | VUpdate | VNewRoute       (* Router.Handle / Router.Update / Router.NewRoute + HandleRoute *)
+  | VOnly.                                           (* Router.NewRoute alone: the route is built but not registered *)
 
 Inductive entry := ERouter | ETxnRead | ETxnWrite.
 
